@@ -134,7 +134,7 @@ class RC:
                 x = unwrap(n['e'])
                 if x is not None and x['k'] == 'ref':
                     add(n, 'keep', x['d'])
-            elif n['k'] == 'ret':
+            elif n['k'] == 'ret' and not f.in_lambda(n):
                 add(n, 'ret', n)
         for ini in f.inits:
             pass
@@ -236,7 +236,7 @@ def rule_A(ck, units):
             if f.q == 'amgcl::mpi::communicator::reduce' and 'reduce' not in done:
                 done.add('reduce')
                 calls = [c for c in f.calls('MPI_Allreduce')]
-                rets = [n for n in f.nodes.values() if n['k'] == 'ret']
+                rets = f.returns(with_value=False)
                 ok = len(calls) == 1 and len(rets) == 1
                 if ok:
                     out = unwrap(calls[0]['a'][1])
